@@ -20,7 +20,7 @@ const CORE_NS: &str = "core";
 struct Extra { ns: String, src: String, before: bool }
 
 #[derive(Clone, Copy, Debug, PartialEq, Eq)]
-enum Kind { Main, NonPositive, ForOf }
+enum Kind { Main, NonPositive, ForOf, RefFar }
 
 struct Case {
     core: Vec<RuleSpec>, data: Vec<u8>, globals: Vec<GV>, kind: Kind,
@@ -98,8 +98,8 @@ fn gen_extra(rng: &mut Rng, k: usize, core_pats: &[Vec<u8>], pool: &[Vec<u8>], s
 }
 
 fn gen_case(rng: &mut Rng, kind: Kind, depth: u32, max_extra: usize) -> Case {
-    let n_dep = *rng.pick(&[0usize, 0, 0, 1, 1, 2]);
-    let with_global = rng.chance(1, 6);
+    let n_dep = if kind == Kind::RefFar { 1 + rng.below(3) as usize } else { *rng.pick(&[0usize, 0, 0, 1, 1, 2]) };
+    let with_global = kind != Kind::RefFar && rng.chance(1, 6);
     let n_core = n_dep + with_global as usize + 1;
     let pool: Vec<Vec<u8>> = { let mut v: Vec<Vec<u8>> = vec![]; while v.len() < 6 * n_core + 4 { let t = gen_pattern_text(rng); if !v.contains(&t) { v.push(t); } } v };
     let mut next_unique = 0usize;
@@ -121,6 +121,12 @@ fn gen_case(rng: &mut Rng, kind: Kind, depth: u32, max_extra: usize) -> Case {
             let q = match g.rng.below(4) { 0 => E::Int(0), 1 => E::Arith(Op::Sub, bx(E::Filesize), bx(E::Int(g.fsize))), 2 => E::Arith(Op::Sub, bx(E::Filesize), bx(E::Int(g.fsize + 1 + g.rng.range(0, 90)))),
                 _ => E::Arith(Op::Sub, bx(E::Arith(Op::Sub, bx(E::Count(P::Id(0), None)), bx(E::Count(P::Id(0), None)))), bx(E::Int(g.rng.range(0, 2)))) };
             let t = E::Of(Q::Expr(bx(q)), s, syn, A::None);
+            match g.rng.below(4) { 0 => E::Not(bx(t)), 1 => { let o = g.gen_bool(1); E::And(bx(t), bx(o)) } _ => t }
+        } else if is_target && kind == Kind::RefFar {
+            // the verdict is a function of the referenced rules' verdicts (read from the
+            // matching-rules bitmap, whose layout depends on how many rules precede them)
+            let mut t = E::Rule(0);
+            for j in 1..n_dep { t = if g.rng.chance(1, 2) { E::And(bx(t), bx(E::Rule(j))) } else { E::Or(bx(t), bx(if g.rng.chance(1, 3) { E::Not(bx(E::Rule(j))) } else { E::Rule(j) })) }; }
             match g.rng.below(4) { 0 => E::Not(bx(t)), 1 => { let o = g.gen_bool(1); E::And(bx(t), bx(o)) } _ => t }
         } else if is_target && kind == Kind::ForOf {
             // `for <quantifier> of <set> : (<placeholder test>)` over patterns of the target's own:
@@ -146,6 +152,12 @@ fn gen_case(rng: &mut Rng, kind: Kind, depth: u32, max_extra: usize) -> Case {
     // the unrelated rules
     let n_extra = match rng.below(8) { 0 => 0, 1..=3 => 1 + rng.below(5) as usize, 4 | 5 => 8 + rng.below(25) as usize, _ => 40 + rng.below(161) as usize }.min(max_extra);
     let n_extra = if kind == Kind::ForOf { n_extra.max(1 + rng.below(4) as usize) } else { n_extra };
+    // RefFar: the core follows 0, 31, 32, 33, 63, 64, 65 or 200 unrelated rules (so that the ids of
+    // the referenced rules sit on both sides of the byte / word boundaries of the bitmap), minus
+    // a few that go between the referenced rules and the target
+    let far_before = *rng.pick(&[0usize, 31, 32, 33, 63, 64, 65, 200]);
+    let far_between = rng.below(4) as usize;
+    let n_extra = if kind == Kind::RefFar { (far_before + far_between).min(max_extra.max(70)) } else { n_extra };
     let mut sh = (0usize, 0usize);
     // namespace blocks before the core, the core namespace, blocks after
     let mut before: Vec<(String, String)> = vec![]; let mut after: Vec<(String, String)> = vec![];
@@ -153,8 +165,8 @@ fn gen_case(rng: &mut Rng, kind: Kind, depth: u32, max_extra: usize) -> Case {
     let n_other_ns = 1 + rng.below(24) as usize;
     for k in 0..n_extra {
         let (src, _) = gen_extra(rng, k, &target_pats, &pool, &mut sh);
-        match if kind == Kind::ForOf && k == 0 { 2 } else { rng.below(5) } {
-            0 | 1 => in_core_ns.push((rng.below(n_core as u64 + 1) as usize, src)),
+        match if kind == Kind::ForOf && k == 0 { 2 } else if kind == Kind::RefFar { if k < far_before.min(n_extra) { 2 } else { 0 } } else { rng.below(5) } {
+            0 | 1 => in_core_ns.push((if kind == Kind::RefFar { 1 + rng.below(n_core as u64 - 1) as usize } else { rng.below(n_core as u64 + 1) as usize }, src)),
             2 | 3 => { let ns = format!("nsb{}", rng.below(n_other_ns as u64)); let src = if rng.chance(1, 10) { format!("global {}", src.replacen("private ", "", 1)) } else { src }; before.push((ns, src)); }
             _ => { let ns = format!("nsa{}", rng.below(n_other_ns as u64)); after.push((ns, src)); }
         }
@@ -214,7 +226,7 @@ fn replay(path: &str) -> i32 {
     let d: serde_json::Value = serde_json::from_str(&std::fs::read_to_string(path).unwrap()).unwrap();
     let c = if d.get("case").is_some() { &d["case"] } else { &d };
     let data = unhex(c["data_hex"].as_str().unwrap());
-    let globals: Vec<GV> = GLOBALS.iter().map(|(n, t)| { let v = &c["globals"][*n]; match t { T::Int => GV::I(v.as_i64().unwrap()), T::Bool => GV::B(v.as_bool().unwrap()), T::Str => GV::S(v.as_str().unwrap().as_bytes().to_vec()) } }).collect();
+    let globals: Vec<GV> = GLOBALS.iter().map(|(n, t)| { let v = &c["globals"][*n]; match t { T::Int => GV::I(v.as_i64().unwrap()), T::Bool => GV::B(v.as_bool().unwrap()), T::Str => GV::S(gv_str(v)) } }).collect();
     let target = c["target"].as_str().unwrap();
     let fast = c["fast_scan"].as_bool().unwrap_or(false);
     for key in ["single_source", "embedded_source"] {
@@ -248,7 +260,7 @@ pub fn run(args: &[String]) -> i32 {
     while shards.total < n {
         attempts += 1;
         if attempts > 3 * n + 50 { break; }
-        let kind = if rng.chance(1, 12) { Kind::NonPositive } else if rng.chance(1, 6) { Kind::ForOf } else { Kind::Main };
+        let kind = if rng.chance(1, 12) { Kind::NonPositive } else if rng.chance(1, 6) { Kind::ForOf } else if rng.chance(1, 6) { Kind::RefFar } else { Kind::Main };
         let d = 1 + rng.below(depth as u64) as u32;
         let case = if !corpus.is_empty() { corpus.remove(0) } else { gen_case(&mut rng, kind, d, max_extra) };
         let kind = case.kind; let _ = kind;
@@ -267,7 +279,7 @@ pub fn run(args: &[String]) -> i32 {
             }
         };
         stats.inc("cases");
-        stats.inc(match case.kind { Kind::Main => "stream_main", Kind::NonPositive => "stream_of_nonpositive", Kind::ForOf => "stream_for_of" });
+        stats.inc(match case.kind { Kind::Main => "stream_main", Kind::NonPositive => "stream_of_nonpositive", Kind::ForOf => "stream_for_of", Kind::RefFar => "stream_references_after_many_rules" });
         stats.inc(&format!("extra_rules_{}", match case.n_extra { 0 => "0", 1..=5 => "1-5", 6..=39 => "6-39", _ => "40-200" }));
         stats.add("extra_rules_total", case.n_extra as u64);
         stats.add("patterns_shared_verbatim", case.shares_verbatim as u64);
@@ -288,7 +300,7 @@ pub fn run(args: &[String]) -> i32 {
             coq_list(&anch, |a| match a { Anchoring::Free => "(0%nat, 0)".to_string(), Anchoring::At(k) => format!("(1%nat, {})", coq_z(*k as i128).replace("%Z", "")), Anchoring::Unknown => "(2%nat, 0)".to_string() }),
             coq_slice(&single), coq_slice(&embedded), coq_slice(&warm));
         let replay = format!("{{\"index\":{},\"stream\":{},\"target\":{},\"fast_scan\":{},\"n_extra\":{},\"single_source\":{},\"embedded_source\":{},\"data_hex\":\"{}\",\"globals\":{},\"single\":{},\"embedded\":{},\"single_with_forced_search\":{}}}",
-            shards.total, json_str(match case.kind { Kind::Main => "main", Kind::NonPositive => "of_nonpositive", Kind::ForOf => "for_of" }), json_str(&target), case.fast_scan, case.n_extra,
+            shards.total, json_str(match case.kind { Kind::Main => "main", Kind::NonPositive => "of_nonpositive", Kind::ForOf => "for_of", Kind::RefFar => "references_after_many_rules" }), json_str(&target), case.fast_scan, case.n_extra,
             json_str(&join_sources(&single_src)), json_str(&join_sources(&case.embedded)), hex(&case.data), gv_json(&case.globals),
             json_slice(&single), json_slice(&embedded), json_slice(&warm));
         if samples.len() < 2 && case.n_extra > 0 && case.n_extra < 4 { samples.push(format!("{{\"embedded_source\":{},\"data_hex\":\"{}\",\"slice\":{}}}", json_str(&join_sources(&case.embedded)), hex(&case.data), json_slice(&embedded))); }
